@@ -120,7 +120,25 @@ func zzC06Day(n, k int) {
 		// above field capacity by the previous day's capillary increment on a soil whose water between
 		// field capacity and the dryness limit is less than one sub-step's uptake (see DESIGN, C06)
 		vAssume(g.WG[0][i] >= g.WMIN[i]/3 && g.WG[0][i] <= g.W[i])
+		// magnitudes of the evapotranspiration demands (C08: potential ET <= 0.65 cm/d)
+		vAssume(g.TP[i] <= 0.65 && l.EV[i] <= 0.65 && g.WMIN[i] >= 0.01)
 		s0 += g.WG[0][i] * g.DZ.Num
+	}
+	// UPTAKE invariant (post-conditions of Evatra's evaporation distribution): actual evaporation
+	// is at most the daily cap, the layer shares add up to it, and a layer's share per unit of
+	// water above its dryness limit does not increase with depth (exponential depth weighting)
+	vAssume(g.FLUSS0 >= -0.65)
+	evsum := 0.0
+	for i := 0; i < n; i++ {
+		evsum += l.EV[i]
+		if i+1 < n && n >= 3 {
+			vAssume(l.EV[i+1]*(g.WG[0][i]-g.WMIN[i]/3) <= l.EV[i]*(g.WG[0][i+1]-g.WMIN[i+1]/3))
+		}
+	}
+	if g.FLUSS0 < 0 {
+		vAssume(vNear(evsum, -g.FLUSS0, 1e-12))
+	} else {
+		vAssume(evsum == 0)
 	}
 	eps := 1e-9
 	bottom, drain := 0.0, 0.0
